@@ -277,7 +277,7 @@ func runC16(c *Ctx) {
 		var lit *ast.CompositeLit
 		for _, f := range p.Syntax {
 			ast.Inspect(f, func(n ast.Node) bool {
-				if vs, ok := n.(*ast.ValueSpec); ok && len(vs.Names) == 1 && vs.Names[0].Name == "compat" && len(vs.Values) == 1 {
+				if vs, ok := n.(*ast.ValueSpec); ok && len(vs.Names) == 1 && vs.Names[0].Name == c.curVal("names", "compat") && len(vs.Values) == 1 {
 					lit, _ = vs.Values[0].(*ast.CompositeLit)
 				}
 				return true
@@ -713,7 +713,7 @@ func (c *Ctx) toUnicodeGrammar(info *types.Info) {
 				n++
 				dom := false
 				for _, cd := range domConds(call.Block()) {
-					if p, ok := cd.v.(*ssa.Parameter); ok && cd.truth && p.Name() == "dingbats" {
+					if p, ok := cd.v.(*ssa.Parameter); ok && cd.truth && len(f.Params) == 2 && p == f.Params[1] {
 						dom = true
 					}
 				}
